@@ -84,6 +84,18 @@ pub fn c12_plans(_m: &mut Mon, ctx: &StepCtx, stats: &mut Stats, out: &mut Vec<V
             }
             Some((HUB, "receive", _)) => {
                 let und: Vec<(String, u128)> = o.children(c.idx).filter_map(|k| if let MsgRec::Undelegate { validator, amount } = &k.msg { Some((validator.clone(), *amount)) } else { None }).collect();
+                // the amount the hub asked the plan for: the closing batch at its recorded rates
+                if let (Some(pre), Some(post)) = (&ctx.pre.hub, &ctx.post.hub) {
+                    if post.history.len() == pre.history.len() + 1 {
+                        let h = &post.history[post.history.len() - 1];
+                        let want = crate::refmath::mul_rate(h.bsei_amount.u128(), crate::refmath::atomics(h.bsei_applied_exchange_rate)).unwrap_or(0) + crate::refmath::mul_rate(h.stsei_amount.u128(), crate::refmath::atomics(h.stsei_applied_exchange_rate)).unwrap_or(0);
+                        let got: u128 = und.iter().map(|u| u.1).sum();
+                        stats.check("c12_undelegation_exact_amount");
+                        if got != want {
+                            viol(out, "C12", "undelegation_plan_removes_exact_amount", ctx.idx, "registry.calculate_undelegations:amount", format!("batch {} asked for {} to be undelegated from {:?} but the emitted plan {:?} sums to {}", h.batch_id, want, layout_before(ctx, c.idx), und, got));
+                        }
+                    }
+                }
                 if und.is_empty() {
                     continue;
                 }
